@@ -150,24 +150,45 @@ func traceText(model string) (string, string) {
 
 func runC14(c *hx.Ctx) error {
 	res := c.Res
-	res.Rule = "generated concurrent programs: main composed of 1-3 shapes (pipeline with 0-2 stages, fan-in whose parent changes the passed variables after each go, WaitGroup-like counting over a channel with one shared cell per worker, several producers plus a closer goroutine and range, select over two feeders with choice-independent sum; native functions started with go / called right after / deferred), and programs whose go statements pass int, float64, string and []int arguments in every mixture from frames with 0-3 live locals of each register class, several go statements per frame, in nested calls, the caller changing the passed locals afterwards (gc is their only oracle); channels unbuffered or buffered 1-3, Gosched calls at random places; each run by Scriggo under GOMAXPROCS 1/2/4/8 several times and compared with gc's output of the same source and with the Lean source-level and VM-level evaluators under random schedules. Non-trivial: every program (each starts at least one goroutine); distinct by source"
+	res.Rule = "generated concurrent programs: main composed of 1-3 shapes (pipeline with 0-2 stages, fan-in whose parent changes the passed variables after each go, WaitGroup-like counting over a channel with one shared cell per worker, several producers plus a closer goroutine and range, select over two feeders with choice-independent sum; native functions started with go / called right after / deferred), and programs whose go statements pass int, float64, string and []int arguments in every mixture from frames with 0-3 live locals of each register class, several go statements per frame, in nested calls, the caller changing the passed locals afterwards (gc is their only oracle), and programs of 1-3 closed-channel parts that use what a receive gives after close (select loops over 2-5 channels of the classes int/string/float64/[]int, several per class, fed by goroutines or prefilled, in the forms `v, ok :=`, `v :=`, `x, ok =`, `x =`, received 1-3 more times after close, with nil-channel and never-ready cases and default; scripted send/close/select sequences with one ready case whose every outcome is printed; plain receives in all statement forms; range over closed channels; send/close panics under recover with their messages; gc is their only oracle); channels unbuffered or buffered 1-3, Gosched calls at random places; each run by Scriggo under GOMAXPROCS 1/2/4/8 several times and compared with gc's output of the same source and with the Lean source-level and VM-level evaluators under random schedules. Non-trivial: every program (each starts at least one goroutine); distinct by source"
 	if c.Replay != "" {
 		return replayC14(c)
 	}
-	n := c.N(360, 3000)
+	n := c.N(560, 4000)
 	var progs []*program
 	for i := 0; i < n; i++ {
-		if i%3 == 2 {
+		switch {
+		case i%4 == 3:
+			progs = append(progs, genClosed(c.R))
+		case i%3 == 2:
 			progs = append(progs, genMixed(c.R))
-		} else {
+		default:
 			progs = append(progs, genProgram(c.R))
 		}
+	}
+	// the known defects ride in the same gc batch
+	for _, k := range knownC14 {
+		progs = append(progs, &program{N: 4, M: 2, raw: k.raw, shapes: []string{"known:" + k.id}})
 	}
 	want, err := gcBatch(progs)
 	if err != nil {
 		return err
 	}
-	res.SpecChecks["gc-batch-programs"] = len(progs)
+	for j, k := range knownC14 {
+		i := n + j
+		src := progs[i].source("", "main", true)
+		bad := ""
+		if a, err := run.Build(run.Case{Kind: "program", Files: map[string]string{"main.go": src}, AllowGo: true}); err != nil {
+			bad = "build error: " + err.Error()
+		} else if o, ok := scriggoRun(a, 2); !ok || o.Printed != want[i] || o.Err != "" || o.Panic != "" {
+			bad = o.String()
+		}
+		if bad != "" {
+			res.AddBreak(proto.Break{Kind: "property", Name: "output-differs-from-gc", Finding: c.Known(k.id),
+				Case: c14Case{Source: src, Want: want[i], Procs: 2}.line(), Human: src, Impl: bad, Model: fmt.Sprintf("gc prints %q", want[i])})
+		}
+	}
+	progs, want = progs[:n], want[:n]
 
 	// the Lean evaluators: source level and VM level (main at a non-zero frame pointer), one (quick) or two (thorough) random schedules each
 	var lines []string
@@ -242,8 +263,8 @@ func runC14(c *hx.Ctx) error {
 			if bad != "" {
 				failures++
 				// shrink: a single shape of the program that still fails
-				if len(p.segs) > 1 {
-					var cands []*program
+				if len(p.segs) > 1 || len(p.alts) > 1 {
+					cands := p.alts
 					for k := range p.segs {
 						cands = append(cands, p.only(k))
 					}
